@@ -15,7 +15,7 @@ func refAppendUvar(dst []byte, u uint64) []byte {
 
 func zigzag32(i int32) uint64 { return uint64(uint32((int64(i) << 1) ^ (int64(i) >> 31))) }
 func zigzag64(i int64) uint64 { return uint64(i<<1) ^ uint64(i>>63) }
-func unzig(u uint64) int64   { return int64(u>>1) ^ -int64(u&1) }
+func unzig(u uint64) int64    { return int64(u>>1) ^ -int64(u&1) }
 
 // refUvar decodes an unsigned varint of at most maxBytes bytes whose value must fit
 // in `bits` bits. Returns (value, n) with the semantics the kbin docs state:
